@@ -142,7 +142,10 @@ func (e *Endpoint) Read(p []byte) (int, error) {
 	return e.world().Park(&simrt.Req{Kind: simrt.KRead, Res: e, Buf: p})
 }
 
+//go:norace
 func (e *Endpoint) Write(p []byte) (int, error) {
+	// (the hook field is set up by the root goroutine before the tasks start; the hand-off between
+	// scheduler and tasks is deliberately invisible to the race detector)
 	if e.BeforeWrite != nil {
 		e.BeforeWrite(p)
 	}
